@@ -4,6 +4,8 @@
    Source transcribed (pyiga/compile.py at /repo HEAD + fixes/C20-atomic-cache-publish.patch):
 
      compile_cython_module (compile.py:58-73)
+        os.makedirs(MODDIR, exist_ok=True)              -> pc PMkdir (one atomic idempotent step; the variant
+                                                           `if not isdir: makedirs` is PChkDir, PCreate: proto NewCC)
         modname = 'mod' + shake_128(src)                -> a form is identified with its name (idealised digest)
         try: importlib.import_module(modname)           -> pc PImport
         except ImportError: _compile_cython_module_nocache(src, modname)
@@ -41,7 +43,8 @@ Inductive fstate :=
 Inductive role := Pyx | Cfile | Obj | So.
 Inductive path :=
 | Final (r : role) (n : form)          (* MODDIR/mod<digest n>.<ext>: read by every process *)
-| Tmp (p : pid) (r : role).            (* <mkdtemp of process p>/mod<digest>.<ext> *)
+| Tmp (p : pid) (r : role)             (* <mkdtemp of process p>/mod<digest>.<ext> *)
+| CacheDir.                            (* MODDIR itself: Absent, or Complete 0 = the directory exists *)
 
 Definition role_eqb (a b : role) : bool :=
   match a, b with Pyx, Pyx | Cfile, Cfile | Obj, Obj | So, So => true | _, _ => false end.
@@ -49,6 +52,7 @@ Definition path_eqb (x y : path) : bool :=
   match x, y with
   | Final r n, Final r' n' => role_eqb r r' && Nat.eqb n n'
   | Tmp p r, Tmp p' r' => Nat.eqb p p' && role_eqb r r'
+  | CacheDir, CacheDir => true
   | _, _ => false
   end.
 Definition upd {A} (f : path -> A) (x : path) (v : A) : path -> A :=
@@ -65,6 +69,8 @@ Inductive outcome :=
 
 Inductive wphase := W0 | W1 | W2 | W3 | W4.
 Inductive pc :=
+| PMkdir                               (* os.makedirs(MODDIR, exist_ok=True): atomic, idempotent *)
+| PChkDir | PCreate                    (* `if not os.path.isdir(MODDIR): os.makedirs(MODDIR)`: two steps *)
 | PImport | PMkdtemp
 | PWrite (r : role) (w : wphase)
 | PReplace | PCleanup | PReimport
@@ -78,14 +84,16 @@ Record state := mkstate {
   clock : nat;
   procs : pid -> option proc }.
 
-Inductive proto := Old | New.
+(* NewCC = New with the check-then-create pair instead of the idempotent mkdir *)
+Inductive proto := Old | New | NewCC.
+Definition entry (pr : proto) : pc := match pr with NewCC => PChkDir | _ => PMkdir end.
 
 Definition init : state :=
   mkstate (fun _ => Absent) (fun _ => 0) 1 (fun _ => None).
 
 (* where process p, building form n, writes the artefact of role r *)
 Definition wpath (pr : proto) (p : pid) (n : form) (r : role) : path :=
-  match pr with Old => Final r n | New => Tmp p r end.
+  match pr with Old => Final r n | New => Tmp p r | NewCC => Tmp p r end.
 
 Definition write (st : state) (x : path) (v : fstate) : state :=
   mkstate (upd (files st) x v) (upd (mtime st) x (clock st)) (S (clock st)) (procs st).
@@ -110,7 +118,7 @@ Definition exists_ (f : fstate) : bool := match f with Absent => false | _ => tr
 Definition stale (st : state) (src tgt : path) : bool :=
   negb (exists_ (files st tgt)) || Nat.ltb (mtime st tgt) (mtime st src).
 
-Definition after_so (pr : proto) : pc := match pr with Old => PReimport | New => PReplace end.
+Definition after_so (pr : proto) : pc := match pr with Old => PReimport | New => PReplace | NewCC => PReplace end.
 Definition next_stage (pr : proto) (r : role) : pc :=
   match r with Pyx => PWrite Cfile W0 | Cfile => PWrite Obj W0 | Obj => PWrite So W0 | So => after_so pr end.
 
@@ -158,13 +166,18 @@ Definition clear_tmp (st : state) (p : pid) : state :=
 Definition step_proc (pr : proto) (orc : oracle) (st : state) (p : pid) (q : proc) : state :=
   let n := pform q in
   match ppc q with
+  | PMkdir => goto (write st CacheDir (Complete 0)) p q PImport
+  | PChkDir => if exists_ (files st CacheDir) then goto st p q PImport else goto st p q PCreate
+  | PCreate => if exists_ (files st CacheDir) then goto st p q (PDone Exn)      (* FileExistsError *)
+               else goto (write st CacheDir (Complete 0)) p q PImport
   | PImport =>
       match load orc (files st (Final So n)) with
       | LOk c => goto st p q (PDone (Ok c))
       | LErr => goto st p q PMkdtemp
       | LCrash => goto st p q (PDone Death)
       end
-  | PMkdtemp => goto st p q (PWrite Pyx W0)
+  | PMkdtemp => if exists_ (files st CacheDir) then goto st p q (PWrite Pyx W0)
+                else goto st p q (PDone Exn)               (* mkdtemp(dir=MODDIR): FileNotFoundError *)
   | PWrite r w => stage pr st p q r w
   | PReplace =>                                          (* os.replace(builddir/so, MODDIR/so) *)
       goto (write (write st (Final So n) (files st (Tmp p So))) (Tmp p So) Absent) p q PCleanup
@@ -186,7 +199,7 @@ Definition is_done (c : pc) : bool := match c with PDone _ => true | _ => false 
 Definition step (pr : proto) (orc : oracle) (st : state) (l : label) : state :=
   match l with
   | Spawn p n => match procs st p with
-                 | None => setproc st p (mkproc n PImport n)
+                 | None => setproc st p (mkproc n (entry pr) n)
                  | Some _ => st                             (* pids are never reused *)
                  end
   | Step p => match procs st p with Some q => step_proc pr orc st p q | None => st end
@@ -216,6 +229,7 @@ Definition outcome_of (st : state) (p : pid) : option outcome :=
 Definition rank (c : pc) : nat :=
   let ph w := match w with W0 => 5 | W1 => 4 | W2 => 3 | W3 => 2 | W4 => 1 end in
   match c with
+  | PChkDir => 28 | PCreate => 27 | PMkdir => 27
   | PImport => 26 | PMkdtemp => 25
   | PWrite Pyx w => 19 + ph w
   | PWrite Cfile w => 14 + ph w
@@ -224,7 +238,7 @@ Definition rank (c : pc) : nat :=
   | PReplace => 3 | PCleanup => 2 | PReimport => 1
   | PDone _ => 0
   end.
-Definition FUEL := 26.
+Definition FUEL := 28.
 
 (* ------------------------------------------------------------------------- *)
 (* Fault histories (what the correspondence run executes on the real code)   *)
@@ -232,6 +246,7 @@ Definition FUEL := 26.
 
 Definition pc_eqb (a b : pc) : bool :=
   match a, b with
+  | PMkdir, PMkdir | PChkDir, PChkDir | PCreate, PCreate
   | PImport, PImport | PMkdtemp, PMkdtemp | PReplace, PReplace | PCleanup, PCleanup
   | PReimport, PReimport => true
   | PWrite r w, PWrite r' w' =>
@@ -257,11 +272,12 @@ Definition damage (k : option sizeclass) (f : fstate) : fstate :=
   | Some _, Partial k' c => Partial k' c                (* an already damaged file is left as it is *)
   | Some k, Complete c => Partial k c
   end.
-Definition role_of (x : path) : role := match x with Final r _ => r | Tmp _ r => r end.
+Definition has_role (x : path) (r : role) : bool :=
+  match x with Final r' _ => role_eqb r' r | Tmp _ r' => role_eqb r' r | CacheDir => false end.
 (* external damage of every file of role r in the cache directory *)
 Definition damage_all (st : state) (r : role) (k : option sizeclass) : state :=
-  mkstate (fun y => if role_eqb (role_of y) r then damage k (files st y) else files st y)
-          (fun y => if role_eqb (role_of y) r then clock st else mtime st y) (S (clock st)) (procs st).
+  mkstate (fun y => if has_role y r then damage k (files st y) else files st y)
+          (fun y => if has_role y r then clock st else mtime st y) (S (clock st)) (procs st).
 
 Inductive event :=
 | ERun (n : form)                                        (* a fresh process requests form n and runs to its end *)
@@ -308,6 +324,7 @@ Fixpoint outcomes (st : state) (p0 : pid) (fs : list form) : list nat :=
 Definition pc_code (c : pc) : nat :=
   let ph w := match w with W0 => 0 | W1 => 1 | W2 => 2 | W3 => 3 | W4 => 4 end in
   match c with
+  | PMkdir => 3 | PChkDir => 4 | PCreate => 5
   | PImport => 1 | PMkdtemp => 2
   | PWrite Pyx w => 10 + ph w | PWrite Cfile w => 20 + ph w | PWrite Obj w => 30 + ph w | PWrite So w => 40 + ph w
   | PReplace => 50 | PCleanup => 51 | PReimport => 52
